@@ -395,7 +395,7 @@ class CallMixin:
                 st.snap["$epoch"] = st.snap.get("$epoch", 0) + 1
                 ep = st.snap["$epoch"]
                 for name in list(st.heap):
-                    if name == "$alloc":
+                    if name in ("$alloc", "#NTOP", "#LASTARGS", "#LASTKWDOM", "#LASTKWMAP", "#LASTF"):
                         continue
                     st.heap[name] = z3.Const("H%d!%s!%d" % (ep, name, self.bump()), st.heap[name].sort())
                 continue
@@ -475,6 +475,14 @@ class CallMixin:
             s.frames[fid].update(fr)
             name = c.qualname
             n = self.callsite_ordinal(s, name)
+            # ghost outputs of the callee (existential witnesses): fresh at the call site
+            for gname, ghint in c.extra.get("ghosts", {}).items():
+                s.frames[fid][gname] = self.sym(s, "gh_" + gname, ghint)
+            # ghost snapshots the *caller's* contract asks for at this call site (witnesses for its own ensures)
+            if self.cur is not None and s.depth == 0:
+                for gname, gsrc in self.cur.extra.get("snapshots", {}).get("%s#%d" % (name, n), []):
+                    gv = self.spec_value(s, gsrc, self.root_fid, s.heap0, s.entry_frame, {})
+                    s.frames[self.root_fid][gname] = gv
             # preconditions
             for label, src, props in c.requires:
                 g = self.spec_eval(s, src, fid, s.heap0, None, {})
@@ -526,6 +534,10 @@ class CallMixin:
             result = self.sym(s, "ret_" + name.split(".")[-1], c.returns) if c.returns != "none" else SV("none")
             for label, src, props in c.ensures:
                 s.assume(self.spec_eval(s, src, fid, old_heap, entry, {"result": result}))
+            if self.cur is not None and s.depth == 0:
+                for gname, gsrc in self.cur.extra.get("after", {}).get("%s#%d" % (name, n), []):
+                    gv = self.spec_value(s, gsrc, fid, old_heap, entry, {"result": result})
+                    s.frames[self.root_fid][gname] = gv
             if c.raises:
                 s.trail.append("call:%s#%d:ok" % (name, n))
             if not c.raises or self.feasible(s):
@@ -565,6 +577,9 @@ class CallMixin:
             if c is None:
                 raise Unsupported("opaque call without an interface model (%s.%s)" % (role, method))
         self.assumptions.add("interface model %s: %s" % (key, c.notes))
+        if recv.k in REFKINDS:
+            nt = self.harr(st, "#NTOP")
+            st.heap["#NTOP"] = z3.Store(nt, recv.t, z3.Select(nt, recv.t) + 1)
         params = c.extra.get("params")
         if params is not None and star is None and starkw is None:
             fr = {"self": recv}
@@ -587,6 +602,10 @@ class CallMixin:
         else:
             sq, dom, mp = self.pack_args(st, pos, kw, star, starkw)
             fr = {"self": recv, "args": self.new_tuple_obj(st, sq), "kwargs": self.new_dict(st, dom, mp)}
+            # engine-private ghost: what the most recent opaque call made by an Eliot frame was given
+            for nm, val in (("#LASTARGS", sq), ("#LASTKWDOM", dom), ("#LASTKWMAP", mp), ("#LASTF", box(recv))):
+                self.harr(st, nm)
+                st.heap[nm] = val
         return self.apply_contract(st, c, None, None, [], {}, None, None, None, frame=fr)
 
     # ------------------------------------------------------------------ class instantiation
